@@ -49,7 +49,7 @@ def prepare(cases, scratch, builder, optimize=False, endian="both", single_tu=Fa
     return out
 
 
-def drive_case(c, lib, worker, want, guard="none", tag=""):
+def drive_case(c, lib, worker, want, guard="none", tag="", be=False):
     """Runs the C API on every value of the case and records events."""
     t = c.prog["rtype"]
     ev = c.events
@@ -64,7 +64,7 @@ def drive_case(c, lib, worker, want, guard="none", tag=""):
     plan = []
     raw = c.note.get("raw", False)
     for vi, v in enumerate(c.values):
-        img = lib.image(v)
+        img = lib.image(v, be=be)
         ops.append(["enc", img.hex()])
         plan.append(("enc", vi, img))
         if "json" in want:
@@ -85,7 +85,7 @@ def drive_case(c, lib, worker, want, guard="none", tag=""):
             c.event_src.append(vi)
         if kind == "enc":
             buf = bytes.fromhex(r["buf"])
-            e = {"ev": "CEncode", "mem": lib.read_image(img), "bytes": list(buf)}
+            e = {"ev": "CEncode", "mem": lib.read_image(img, be=be), "bytes": list(buf)}
             if not raw:
                 e["v"] = gen.sm_tree(t, c.values[vi])
             ev.append(e)
@@ -117,5 +117,5 @@ def drive_case(c, lib, worker, want, guard="none", tag=""):
                 ev.append({"ev": "Fault", "what": tag + "decode-modified-buffer"})
                 c.event_src.append(vi)
             mem = bytes.fromhex(r["mem"])
-            ev.append({"ev": "CDecode", "bytes": list(b), "mem": lib.read_image(mem)})
+            ev.append({"ev": "CDecode", "bytes": list(b), "mem": lib.read_image(mem, be=be)})
             c.event_src.append(vi)
